@@ -348,6 +348,37 @@ func ruleC11(c *Ctx) {
 			c.ok("P", fk, f.Pos(), "every position is only offset, subtracted, compared with positions, used to index/slice the buffer, stored in positional fields or returned")
 		}
 	}
+	// the field type itself: "empty" is a statement about the length alone. A predicate that looks at the
+	// offset (or compares the whole field with a constant field) answers differently at offset 0 and at offset k.
+	if f := c.SFuncs["PField.Empty"]; f != nil {
+		okE, reads := true, 0
+		why := ""
+		for _, b := range f.Blocks {
+			for _, ins := range b.Instrs {
+				switch x := ins.(type) {
+				case *ssa.BinOp:
+					if _, isStruct := x.X.Type().Underlying().(*types.Struct); isStruct {
+						okE, why = false, "compares the whole field, offset included"
+					}
+				case *ssa.Field:
+					reads++
+					if st, ok := x.X.Type().Underlying().(*types.Struct); ok && posFieldNames[st.Field(x.Field).Name()] {
+						okE, why = false, "reads the positional field "+st.Field(x.Field).Name()
+					}
+				case *ssa.UnOp:
+					if fa, ok := x.X.(*ssa.FieldAddr); ok && x.Op == token.MUL {
+						reads++
+						if st := derefStruct(fa.X.Type()); st != nil && posFieldNames[st.Field(fa.Field).Name()] {
+							okE, why = false, "reads the positional field "+st.Field(fa.Field).Name()
+						}
+					}
+				}
+			}
+		}
+		c.check(okE && reads >= 1, "P", "PField.Empty:length-only", f.Pos(), "PField.Empty() is decided by the length alone "+why)
+	} else {
+		c.fail("P", "PField.Empty:length-only", token.NoPos, "PField.Empty not found")
+	}
 	c.check(npos >= 200, "P", "position-values", token.NoPos, fmt.Sprintf("%d SSA values of kind position tracked (frozen minimum 200)", npos))
 	// 16-bit sums Offs+Len occur only on the two halves of one PField
 	n16 := 0
